@@ -18,8 +18,9 @@ DOMS = [
     (0.0, 0.0, True), (1.0, 1.0, True), (0.0, 1.0, True), (0.0, 2.0, True), (-2.0, 2.0, True), (-3.0, -1.0, True),
     (0.0, 2.0, False), (-1.5, 1.5, False), (-3.0, -0.5, False), (0.5, 4.0, False),
     (0.0, INF, False), (-INF, 0.0, False), (-INF, INF, False), (-1.0, 1.0, False),
+    (-3.0, 2.0, True), (-2.5, 1.0, False), (-1.0, 3.0, True),          # zero-crossing, asymmetric
 ]
-DOMS_SMALL = [DOMS[i] for i in (2, 4, 5, 7, 9, 10)]
+DOMS_SMALL = [DOMS[i] for i in (2, 4, 5, 7, 9, 10, 14, 15)]
 
 UNARY = [('neg', lambda a: ('neg', a)), ('abs', lambda a: ('abs', a)), ('pow2', lambda a: ('pow2', a)),
          ('cmul', lambda a: ('mul', N(-2), a)), ('aff', lambda a: ('add', ('mul', N(0.5), a), N(1))),
@@ -41,6 +42,7 @@ UNARY.append(('numberofc1', lambda a: ('numberof', N(1), a, N(1))))
 BINARY = [('add', lambda a, b: ('add', a, b)), ('sub', lambda a, b: ('sub', a, b)), ('mul', lambda a, b: ('mul', a, b)),
           ('div', lambda a, b: ('div', a, b)), ('min', lambda a, b: ('min', a, b)), ('max', lambda a, b: ('max', a, b)),
           ('lin2', lambda a, b: ('sub', ('mul', N(2), a), ('mul', N(3), b))),
+          ('absmul', lambda a, b: ('abs', ('mul', a, b))), ('maxquad', lambda a, b: ('max', ('sub', ('mul', a, b), ('pow2', b)), N(1))),
           ('numberofv', lambda a, b: ('numberof', a, b, N(1))),
           ('and', lambda a, b: ('count', ('and', ('ge', a, N(1)), ('le', b, N(0))), ('b', 0))),
           ('or', lambda a, b: ('count', ('or', ('ge', a, N(1)), ('le', b, N(0))), ('b', 0))),
@@ -61,14 +63,16 @@ ACC = 'default=2;QuadraticConeConstraint=0;RotatedQuadraticConeConstraint=0;Expo
       'PowerConeConstraint=0;GeometricConeConstraint=0;quadobj=2;nonconvexqc=1'
 
 
-def make_model(builder, doms):
-    """variables in NL order (continuous first); builder gets var exprs in the caller's order"""
-    order = sorted(range(len(doms)), key=lambda i: (doms[i][2], i))
+def make_model(builder, doms, int_first=False):
+    """variables in NL order; builder gets var exprs in the caller's order.  Default: all variables in the class
+    'nonlinear in both' (continuous before integer).  int_first: integer variables in class 'both', continuous ones
+    in class 'linear', so that integer variables get the LOWER indices (index-order dependent code paths)."""
+    order = sorted(range(len(doms)), key=(lambda i: (not doms[i][2], i)) if int_first else (lambda i: (doms[i][2], i)))
     pos = {orig: k for k, orig in enumerate(order)}
     V = []
     for orig in order:
         lb, ub, isint = doms[orig]
-        V.append((lb, ub, isint, 1.0 if isint else 0.5))
+        V.append((lb, ub, isint, 1.0 if isint else 0.5) + ((('b' if isint else 'l'),) if int_first else ()))
     args = [('v', pos[i]) for i in range(len(doms))]
     e = builder(*args)
     return Model(V, obj=('min', e, {}))
@@ -84,6 +88,11 @@ def cases(tier):
     for name, b in TERNARY:
         for d in itertools.product(DOMS_SMALL if tier == 'thorough' else DOMS_SMALL[:4], repeat=3):
             yield ('%s %s' % (name, ','.join(map(dom_str, d))), b, list(d))
+    # mixed integer / continuous argument pairs with the integer variable at the lower index
+    for name, b in BINARY:
+        for d in itertools.product(DOMS_SMALL, repeat=2):
+            if d[0][2] != d[1][2]:
+                yield ('intfirst %s %s' % (name, ','.join(map(dom_str, d))), b, list(d))
 
 
 def dom_str(d):
@@ -192,7 +201,8 @@ def work(job):
     if _srv is None: _srv = flatlib.Server(flatlib.build())
     name, builder_idx, doms, tier = job
     b = ALLB[builder_idx]
-    m = make_model(b, doms)
+    int_first = name.startswith('intfirst ')
+    m = make_model(b, doms, int_first)
     st = collections.Counter(); classes = set(); viols = []
     nl = m.nl()
     finite = all(d[0] > -INF and d[1] < INF for d in doms)
@@ -249,7 +259,7 @@ def main(tier, seed):
             'constraint natively; for every delivered functional constraint the true function is evaluated on the gridded argument '
             'domains and must lie in the result variable bounds / be integral for integer results; additionally the delivered model '
             'must be point-wise equivalent on finite domains (catches wrong constant/alias replacement). A class = (constraint type, '
-            'result kind fixed|int|cont, bounds finite|half-infinite).' % (len(UNARY), len(BINARY), len(TERNARY), len(DOMS), OPTS))
+            'result kind fixed|int|cont, bounds finite|half-infinite).' % (len(UNARY), len(BINARY), len(TERNARY), len(DOMS), OPTS) + ' Mixed integer/continuous pairs are also run with the integer variable at the lower NL index.')
     chk.assumptions += ['containment is judged with tolerance 1e-9*max(1,|v|) (absorbs libm rounding; a cut-off of a few ulp is not reported)',
                         'infinite argument domain ends are represented by {+-1e3, +-1e9}',
                         'expressions are placed in an objective so that no root constraint narrows the result bounds',
